@@ -162,6 +162,16 @@ func (f *fieldSelectionMergingVisitor) EnterField(ref int) {
 				}
 			}
 
+			if f.potentiallySameObject(f.nonScalarRequirements[i].enclosingTypeDefinition, f.EnclosingTypeDefinition) {
+				// fields that can apply to the same object must be the same field called with the same arguments
+				left := f.nonScalarRequirements[i].fieldRef
+				if !bytes.Equal(f.operation.FieldNameBytes(left), fieldName) ||
+					!f.operation.ArgumentSetsAreEquals(f.operation.FieldArguments(left), f.operation.FieldArguments(ref)) {
+					f.StopWithExternalErr(operationreport.ErrDifferingFieldsOnPotentiallySameType(objectName))
+					return
+				}
+			}
+
 			if fieldDefinitionTypeNode.Kind != f.nonScalarRequirements[i].fieldTypeDefinitionNode.Kind {
 				hasDifferentKindInRequirements = true
 			}
